@@ -476,4 +476,174 @@ theorem handleHunkLine_ts {cfg : Cfg} {m m' : M} {l : L} {b : Bool} (ps : Preset
         · intro dt hh line raw src h
           rw [emit_st] at h; rw [h] at hnh3; simp [isHunkHeader] at hnh3
 
+-- chain, step, run --------------------------------------------------------------
+
+theorem handlerOf_ts {name : String} {hd : Handler} (hn : handlerOf name = some hd)
+    {cfg : Cfg} {m m' : M} {l : L} {b : Bool} (ps : Preset cfg) (inv : COInv m) (g : Good m) (hu : Unif m.st)
+    (hg : l.grep ≠ 2) (hnc : NotCombined l) (e : hd cfg m l = .ok (b, m')) : TS l m m' := by
+  unfold handlerOf at hn
+  split at hn <;> first
+    | (cases hn
+       first
+         | exact handleCommitMeta_ts ps inv e | exact handleDiffStat_ts e
+         | exact handleDiffHeaderDiff_ts ps inv hnc e | exact handleFileOperation_ts ps e
+         | exact handleMinusLine_ts ps inv e | exact handlePlusLine_ts ps e
+         | exact handleHunkHeader_ts e | exact handleModeLine_ts ps e
+         | exact handleMisc_ts ps inv hu e | exact handleSubmoduleLog_ts ps e
+         | exact handleSubmoduleShort_ts ps e | exact handleMergeConflict_ts ps e
+         | exact handleHunkLine_ts ps g hu e | exact handleGitShowFile_ts e
+         | exact handleBlame_ts g e | exact handleGrep_ts g hg e
+         | exact handleShouldSkip_ts e | exact handleEmitUnchanged_ts e)
+    | cases hn
+
+/-- the chain: the `COInv` / `Good` / pending facts needed by later handlers come from the count
+development (`handlerOf_co`), the row texts from `handlerOf_ts` -/
+theorem chain_ts {cfg : Cfg} {l : L} (ps : Preset cfg) (hg : l.grep ≠ 2) (hnc : NotCombined l) :
+    ∀ (names : List String) {m m' : M}, chain cfg l names m = .ok m' → COInv m → Good m → Unif m.st →
+    (pend m = [] ∨ (HunkBody l ∧ safeOrder names = true)) → TS l m m'
+  | [], m, m', e, _, _, _, _ => by simp only [chain] at e; cases e; exact TS.refl l m
+  | name :: rest, m, m', e, inv, g, hu, hp => by
+    simp only [chain] at e
+    split at e
+    · cases e
+    · rename_i hd hn
+      have hp1 : pend m = [] ∨ HunkBody l := hp.imp id (·.1)
+      have hne : name = "emit_line_unchanged" → pend m = [] := by
+        intro hname
+        rcases hp with h | ⟨_, h⟩
+        · exact h
+        · subst hname; simp [safeOrder] at h
+      split at e
+      · cases e
+      · rename_i m1 e1
+        cases e; exact handlerOf_ts hn ps inv g hu hg hnc e1
+      · rename_i m1 e1
+        have t1 := handlerOf_ts hn ps inv g hu hg hnc e1
+        have c1 := handlerOf_co hn ps.nf inv g hg hp1 hne e1
+        have g1 := (handlerOf_step hn e1 g).good
+        have hp' : pend m1 = [] ∨ (HunkBody l ∧ safeOrder rest = true) := by
+          rcases hp with h | ⟨hb, h⟩
+          · exact Or.inl ((c1.passed rfl).2.trans h)
+          · by_cases hpm : pend m = []
+            · exact Or.inl ((c1.passed rfl).2.trans hpm)
+            · refine Or.inr ⟨hb, ?_⟩
+              unfold safeOrder at h
+              split at h
+              · rename_i hname
+                exfalso
+                subst hname
+                simp only [handlerOf, Option.some.injEq] at hn
+                subst hn
+                rcases handleHunkLine_spec e1 g with ⟨_, _, hs⟩ | ⟨hb', _, _⟩
+                · rw [hunkState_of_hh (hh_of_pend hpm)] at hs; cases hs
+                · cases hb'
+              · split at h
+                · cases h
+                · exact h
+        exact t1.trans (chain_ts ps hg hnc rest e c1.inv g1 (t1.unif hu) hp')
+
+theorem step_ts {cfg : Cfg} {m m' : M} {l : L} (ps : Preset cfg) (inv : COInv m) (g : Good m) (hu : Unif m.st)
+    (hg : l.grep ≠ 2) (hnc : NotCombined l) (hp : pend m = [] ∨ HunkBody l) (e : step cfg m l = .ok m') :
+    (∃ new, timeline m' = timeline m ++ new ∧ ∀ r ∈ new, NewOK l m r) ∧ Unif m'.st ∧
+      (∀ dt hh line raw src, m'.st = .hunkHeader dt hh line raw src →
+        m.st = .hunkHeader dt hh line raw src ∨ (raw = l.raw ∧ src = m.n)) := by
+  unfold step at e
+  have hinit : stepInit m l = m := by unfold stepInit; simp [inv.source]
+  rw [hinit] at e
+  split at e
+  · cases e
+  · rename_i m2 e2
+    cases e
+    have t := chain_ts ps hg hnc _ e2 inv g hu (hp.imp id (fun h => ⟨h, safeOrder_generated⟩))
+    exact ⟨t.rows, t.unif hu, t.pendRaw⟩
+
+/-- a row shows the raw line or the visible text of the input line it is stamped with -/
+def TxRow (all : List L) (r : Row) : Prop := ∃ l, all[r.src]? = some l ∧ (r.text = l.raw ∨ r.text = l.text)
+
+/-- invariant over a run: every row on the timeline is `TxRow`, a pending header carries the raw text of its line -/
+structure TX (all : List L) (m : M) : Prop where
+  rows : ∀ r ∈ timeline m, TxRow all r
+  pend : ∀ dt hh line raw src, m.st = .hunkHeader dt hh line raw src → ∃ l, all[src]? = some l ∧ raw = l.raw
+  unif : Unif m.st
+
+theorem runFrom_tx {cfg : Cfg} (ps : Preset cfg) (all : List L) : ∀ (ls : List L) {m m' : M} {p : Bool},
+    runFrom cfg m ls = .ok m' → COInv m → Good m → TX all m →
+    (∀ i l, ls[i]? = some l → all[m.n + i]? = some l) →
+    (∀ l ∈ ls, l.grep ≠ 2 ∧ NotCombined l) → (pend m = [] ∨ p = true) → Followed p ls → TX all m'
+  | [], m, m', p, e, _, _, tx, _, _, _, _ => by simp only [runFrom] at e; cases e; exact tx
+  | l :: ls, m, m', p, e, inv, g, tx, hidx, hl, hp, hf => by
+    simp only [runFrom] at e
+    split at e
+    · cases e
+    · rename_i m1 e1
+      obtain ⟨hbody, hrest⟩ := hf
+      obtain ⟨hg, hnc⟩ := hl l (List.mem_cons_self ..)
+      have hp1 : pend m = [] ∨ HunkBody l := hp.imp id hbody
+      have hcur : all[m.n]? = some l := by simpa using hidx 0 l rfl
+      obtain ⟨inv1, g1, _, hn1, hfresh⟩ := step_co ps.nf inv g hg hp1 e1
+      obtain ⟨⟨new, htl, hnew⟩, hu1, hpend1⟩ := step_ts ps inv g tx.unif hg hnc hp1 e1
+      have tx1 : TX all m1 := by
+        refine ⟨?_, ?_, hu1⟩
+        · intro r hr
+          rw [htl] at hr
+          rcases List.mem_append.mp hr with h | h
+          · exact tx.rows r h
+          · rcases hnew r h with ⟨hs, ht⟩ | ⟨dt, hh, line, raw, src, hst, hs, ht⟩
+            · exact ⟨l, by rw [hs]; exact hcur, ht⟩
+            · obtain ⟨l0, h0, hraw⟩ := tx.pend dt hh line raw src hst
+              exact ⟨l0, by rw [hs]; exact h0, Or.inl (ht.trans hraw)⟩
+        · intro dt hh line raw src hst
+          rcases hpend1 dt hh line raw src hst with h | ⟨h1, h2⟩
+          · exact tx.pend dt hh line raw src h
+          · exact ⟨l, by rw [h2]; exact hcur, h1⟩
+      refine runFrom_tx ps all ls e inv1 g1 tx1 ?_ (fun x hx => hl x (List.mem_cons_of_mem _ hx)) hfresh hrest
+      intro i x hx
+      have := hidx (i + 1) x (by simpa using hx)
+      rw [hn1]; rw [show m.n + 1 + i = m.n + (i + 1) by omega]; exact this
+
+/-- **`--color-only` preserves the text of every line** (presets in force; unified git diffs): every
+row of delta's output carries the raw line or the visible text of the input line it is stamped
+with. With `run_color_only` (row `i` is stamped `i`): output line `i` shows input line `i`. -/
+theorem run_color_only_text {cfg : Cfg} (ps : Preset cfg) {d : L} {ls : List L} {m : M}
+    (hd : detectSource d.text = .gitDiff) (hl : ∀ l ∈ d :: ls, l.grep ≠ 2 ∧ NotCombined l)
+    (hf : Followed false (d :: ls)) (e : run cfg (d :: ls) = .ok m) :
+    ∀ r ∈ m.out, TxRow (d :: ls) r := by
+  have hout := (run_spec e).2
+  unfold run at e
+  split at e
+  · cases e
+  · rename_i m1 e1
+    have hsame : (timeline (stepInit ({} : M) d) = [] ∧ (stepInit ({} : M) d).st = .unknown ∧
+        (stepInit ({} : M) d).modeInfo = [] ∧ (stepInit ({} : M) d).n = 0) ∧
+        (stepInit ({} : M) d).source = .gitDiff ∧
+        (stepInit ({} : M) d).minus = [] ∧ (stepInit ({} : M) d).plus = [] ∧ (stepInit ({} : M) d).orderOk = true := by
+      unfold stepInit armCounter
+      simp only [hd, if_true]
+      split
+      · split <;> exact ⟨⟨rfl, rfl, rfl, rfl⟩, rfl, rfl, rfl, rfl⟩
+      · split <;> exact ⟨⟨rfl, rfl, rfl, rfl⟩, rfl, rfl, rfl, rfl⟩
+    obtain ⟨⟨htl0, hst0, hmode0, hn0⟩, hsrc0, hmin0, hpl0, hord0⟩ := hsame
+    have hidem : stepInit (stepInit ({} : M) d) d = stepInit ({} : M) d := by
+      generalize stepInit ({} : M) d = x at hsrc0
+      unfold stepInit; simp [hsrc0]
+    have hfirst : runFrom cfg (stepInit ({} : M) d) (d :: ls) = .ok m1 := by
+      simp only [runFrom, step] at e1 ⊢
+      rw [hidem]; exact e1
+    have inv0 : COInv (stepInit ({} : M) d) :=
+      ⟨hmode0, hsrc0, fun dt hh line raw src h => by rw [hst0] at h; cases h⟩
+    have g0 : Good (stepInit ({} : M) d) := ⟨hord0, fun _ => ⟨hmin0, hpl0⟩, fun _ => hpl0⟩
+    have hp00 : pend (stepInit ({} : M) d) = [] := by unfold pend; rw [hst0]
+    have tx0 : TX (d :: ls) (stepInit ({} : M) d) := by
+      refine ⟨?_, ?_, ?_⟩
+      · rw [htl0]; simp
+      · intro dt hh line raw src h; rw [hst0] at h; cases h
+      · rw [hst0]; simp [Unif]
+    have tx1 := runFrom_tx ps (d :: ls) (d :: ls) hfirst inv0 g0 tx0 (by intro i l h; rw [hn0]; simpa using h) hl
+      (Or.inl hp00) hf
+    obtain ⟨inv1, _, _, _⟩ := runFrom_co ps.nf (d :: ls) hfirst inv0 g0 (fun l h => (hl l h).1) (Or.inl hp00) hf
+    have htl : timeline m = timeline m1 := tailOps_co ps.nf.1 _ e inv1.mode
+    intro r hr
+    rw [← hout, htl] at hr
+    exact tx1.rows r hr
+
 end Machine
